@@ -24,7 +24,7 @@ CONSTANTS Configs,        \* set of records [n, block, retries, preload, release
           Disposals,      \* how the caller may dispose of a returned response
           MaxHeld,        \* responses the caller may still hold when it issues the next request
           Cuts,           \* TRUE: the server may cut one idle pooled connection between steps
-          KnownDefects,   \* subset of {"D14"} \cup design mutants {"M_CloseNoRelease", ...}
+          KnownDefects,   \* subset of {"C01_F1"} \cup design mutants {"M_CloseNoRelease", ...}
           TreeTraits      \* behaviours that differ between revisions of the tree and do not matter to the Rules;
                           \* the check detects them on the tree under test (see vh/c01.py: detect_traits):
                           \* "ReleaseLeavesUnfinishedOpen": release_conn() of a response whose body was not read
@@ -135,7 +135,7 @@ Read2Rel(w, k) ==
 
 \* for chunk in stream(2): pass      -- no read at all when the body is already exhausted
 StreamAll(w, k) ==
-    IF ~w.rs[k].fp THEN [w |-> IF Has("D14") THEN w ELSE WRelease(w, k), out |-> "ok"]
+    IF ~w.rs[k].fp THEN [w |-> IF Has("C01_F1") THEN w ELSE WRelease(w, k), out |-> "ok"]
     ELSE ReadAll(w, k)
 
 \* close()
@@ -365,9 +365,9 @@ DisposeResp ==
             /\ resp' = [x.w.rs EXCEPT ![k].live = FALSE]
             /\ outs' = Append(outs, [res |-> IF out = "ok" THEN "response" ELSE "raised",
                                      cls |-> IF out = "ok" THEN "none" ELSE ClassOf(out), inj |-> out = "Interrupt"])
-            \* dev: this step passes through the point where the recorded deviation D14 differs from the design
+            \* dev: this step passes through the point where the recorded deviation C01-F1 differs from the design
             /\ hist' = Append(hist, [op |-> "disp", id |-> i, atts |-> <<>>, how |-> how, out |-> out, dials |-> 0,
-                                     dev |-> IF how = "stream" /\ ~resp[k].fp /\ resp[k].conn # NONE THEN "D14" ELSE ""])
+                                     dev |-> IF how = "stream" /\ ~resp[k].fp /\ resp[k].conn # NONE THEN "C01_F1" ELSE ""])
     /\ UNCHANGED <<cfg, rof, pc, cur, plan, att, ret, err, clean, rel, pend, rcur, nd, inj, ncut>>
 
 (* ---- environment: the server cuts an idle pooled keep-alive connection ---- *)
@@ -406,9 +406,6 @@ OnlyUrllib3Errors  == \A i \in 1..Len(outs) : OnlyUrllib3On(outs[i])
 InterruptsPropagate == \A i \in 1..Len(outs) : InterruptsOn(outs[i])
 \* an interrupt in flight is never replaced: checked while it travels through except/finally
 InterruptInFlight  == (pc = "finally" /\ err = "Interrupt") => pend = "Interrupt"
-\* never more leases than slots on a blocking pool (sanity of the model itself)
-LeaseBound == cfg.block => Len(queue) <= cfg.n
-
 TypeOK == /\ pc \in {"idle", "get", "connect", "send", "recv", "preload", "ok", "except", "finally", "after", "done"}
           /\ Len(queue) <= cfg.n
           /\ \A i \in 1..Len(queue) : queue[i] \in 0..Len(conns)
